@@ -130,7 +130,7 @@ class BuiltUnit:
     pass
 
 
-def build_unit(unit_dir, out_path, mutate=None, neg_control=False, bodies=None):
+def build_unit(unit_dir, out_path, mutate=None, neg_control=False, bodies=None, drop_clauses=None, extra_items=None):
     """Generate the Verus file for a unit. `mutate` = optional function (fnpath, text) -> text applied
     to the *extracted slice in memory* (teeth); `neg_control` appends `ensures false` everywhere.
     Returns BuiltUnit with maps for diagnostics."""
@@ -182,6 +182,8 @@ def build_unit(unit_dir, out_path, mutate=None, neg_control=False, bodies=None):
             item_list.append((item, iu.get("source"), set(iu.get("rewrites", ["R1", "R2"])), True))
     for item in u.get("item", []):
         item_list.append((item, default_src, rewrites, False))
+    for item in (extra_items or []):
+        item_list.append((item, item.get("source", default_src), rewrites, False))
     for item, default_src, rewrites, inc_flag in item_list:
         for p_ in pieces:
             if not hasattr(p_, "included"):
@@ -308,6 +310,13 @@ def build_unit(unit_dir, out_path, mutate=None, neg_control=False, bodies=None):
             ext.full_id = None
             sfs.clauses = [ext] + sfs.clauses
             fs = sfs
+        if fs is not None and drop_clauses:
+            kept = [c for c in fs.clauses if c.full_id not in drop_clauses]
+            if len(kept) != len(fs.clauses):
+                dropped = [c for c in fs.clauses if c.full_id in drop_clauses]
+                fs = copy.copy(fs)
+                fs.clauses = kept
+                p.dropped_clauses = [(c.full_id, c.tags) for c in dropped]
         if fs is not None:
             used_specs.add(fs.path)
             if not p.stub:
